@@ -39,16 +39,22 @@ def expand(run, clauses, env, dyn_cls):
             exc = c.text[4:] if c.text.startswith('INV~') else None
             for ic in specmod.class_inv(run.repo, cls, pre, exc):
                 out.append(specmod.Clause(ic.text, ic.props or c.props, 'inv.' + (ic.name or '')))
-        elif c.text.startswith('INV(') and c.text.endswith(')'):
-            # INV(expr): invariant of another object
-            inner = c.text[4:-1]
+        elif c.text.startswith('INV('):
+            # INV(expr)[.prefix | ~prefix]: invariant of another object
+            m = re.match(r'^INV\((.*)\)([.~][A-Za-z_.]+)?$', c.text, re.S)
+            inner = m.group(1)
+            flt = m.group(2) or ''
             v = eval_expr_in(run, inner, env)
             cls = run.deref(v).cls
-            for ic in specmod.class_inv(run.repo, cls):
+            pre = flt[1:] if flt.startswith('.') else None
+            exc = flt[1:] if flt.startswith('~') else None
+            for ic in specmod.class_inv(run.repo, cls, pre, exc):
                 txt = re.sub(r'\bself\b', '(' + inner + ')', ic.text)
-                out.append(specmod.Clause(txt, ic.props or c.props, ic.name or 'inv'))
+                out.append(specmod.Clause(txt, ic.props or c.props, 'inv(%s).%s' % (inner, ic.name or '')))
         else:
             out.append(c)
+    if any(c.text.startswith('INV') and re.match(r'^INV(\(|$|[.~])', c.text) for c in out):
+        return expand(run, out, env, dyn_cls)
     return out
 
 
@@ -251,22 +257,35 @@ def apply_contract(run, fi, sp, env, dyn_cls, silent=False):
                 raise PyRaise(et, 'in ' + fi.qual)
         elif run.path.choice(2) == 1:
             raise PyRaise(et, 'in ' + fi.qual)
-    descs = parse_modifies(run, sp.modifies, env, fi=fi, dyn_cls=dyn_cls)
+    if silent:
+        descs = []      # a function named inside a clause denotes its value only
+    else:
+        descs = parse_modifies(run, sp.modifies, env, fi=fi, dyn_cls=dyn_cls)
+    result = NONE
+    rk = sp.result
+    if callable(rk):
+        rk = rk(run, env)
+    canon = None
+    if not isinstance(rk, Val) and rk and sp.functional:
+        canon = canonical_result(run, fi, sp, env, kind=rk)       # a function of the *pre*-state read set
     havoc(run, descs)
     for d in descs:
         _mark_written(run, d)
-    result = NONE
-    if callable(sp.result):
-        result = sp.result(run, env)
-    elif sp.result and sp.pure and (fi.is_static or sp.reads is not None):
+    if isinstance(rk, Val):
+        result = rk
+    elif canon is not None:
+        result = canon
+    elif rk and sp.pure and (fi.is_static or sp.reads is not None):
         # a pure static function is a function of its arguments: the result is a canonical term over them
         # (rule: congruence of pure functions; purity is this callee's own frame / no-draw obligation)
         result = canonical_result(run, fi, sp, env)
-    elif sp.result:
-        result = run.eng.materialise(run, sp.result, 'res_' + fi.name, allow_split=False)
+    elif rk:
+        result = run.eng.materialise(run, rk, 'res_' + fi.name, allow_split=False)
     env2 = dict(env)
     env2['result'] = result
     for c in expand(run, sp.ensures, env, dyn_cls):
+        if silent and not sp.pure:
+            break       # the post-state facts of a state-changing callee make no sense without its effect
         g = eval_clause(run, c, env2, old_state=pre, fi=fi, dyn_cls=dyn_cls)
         run.st.assume(g)
     return result
@@ -411,23 +430,49 @@ def _flatten(run, v, out):
         raise Unsupported('canonical result over %r' % (v,))
 
 
-def canonical_result(run, fi, sp, env):
+def canonical_result(run, fi, sp, env, kind=None):
     from .smt import F, Int, Real, ASeq, RSeq, Arm
     args = []
+    tag = ''
     for nm, _ in fi.params():
         if nm == 'self' and not fi.is_static:
             continue
-        _flatten(run, env[nm], args)
+        v = env[nm]
+        if isinstance(v, Ref) and isinstance(run.deref(v), Obj):
+            continue        # objects enter through the declared read set only
+        _flatten(run, v, args)
     for r in (sp.reads or []):
-        # declared read set of a pure method: the part of the receiver's state the result is a function of
+        # declared read set: the part of the state the result is a function of
+        if r.endswith(':config'):
+            ov = eval_expr_in(run, r[:-7], env, fi=fi)
+            o = run.deref(ov)
+            tag += '[' + o.cls + ']'
+            decls = specmod.class_fields(run.repo, o.cls)
+            for f in sorted(o.fields):
+                if decls.get(f, '').endswith(' const'):
+                    x = o.fields[f]
+                    if isinstance(x, StrV):
+                        tag += '[' + x.s + ']'
+                    else:
+                        _flatten(run, x, args)
+            continue
+        if r.endswith('?'):
+            try:
+                v = eval_expr_in(run, r[:-1], env, fi=fi)
+            except Unsupported:
+                continue        # optional read: the field does not exist for this class
+            _flatten(run, v, args)
+            continue
         _flatten(run, eval_expr_in(run, r, env, fi=fi), args)
     sig = [a.sort() for a in args]
-    base = 'fn:' + fi.qual
-    kind = sp.result
+    base = 'fn:' + fi.qual + tag
+    kind = kind or sp.result
 
     def mk(suffix, sort):
         return F(base + suffix, *sig, sort)(*args)
     RArr = z3.ArraySort(Arm, Real)
+    if kind == 'arm':
+        return ArmV(mk('', Arm))
     if kind == 'real':
         return Num(mk('', Real))
     if kind == 'int':
